@@ -48,7 +48,7 @@ CLAIMED = {
                 "iterators exclude removed darts. The clause 'a new dart has no value' is proved FALSE for reused slots (negation witness, "
                 "finding D10) and proved under the blank-slot hypothesis. Tie: allocation histories on real CMap2/CMap3 with every "
                 "attribute mask, every id probed in every storage after each allocation, diffed against the model, oracle on the real map.",
-        "note": "Trusted: Lean kernel + 3 standard axioms; hand-written model of allocation (Vec growth = array append); known finding D10.",
+        "note": "add_free_dart(s), insert_free_dart, remove_free_dart(_transac) of dim2/ and dim3/basic_ops.rs and AttrStorageManager::extend_storages / get_map of attributes/manager.rs are RE-TRANSLATED from the source on every run (Gen/Alloc.lean: which components are extended and by how much, which buckets of the manager, the bucket of every bind policy, what insertion searches / writes, what removal replaces and asserts in which order) and the meaning of these tables is proved equal to the allocation functions of the model (Props/C18Gen.lean). C18_remove_twice_in_one_transaction: a second transactional removal of the same dart inside one transaction is refused. Trusted: Lean kernel + 3 standard axioms; otherwise hand-written model of allocation (Vec growth = array append); known finding D10.",
         "design_ref": "DESIGN.md §7 C18",
     },
     "C02": {
@@ -59,7 +59,7 @@ CLAIMED = {
                 "numbers of darts ahead or behind) is refused with an error (C02_refusal, C02_refusal_sew) and a refused or failed call "
                 "changes nothing; removed darts are nobody's image. Tie: exhaustive WF 3-maps n<=3, glued-faces family, random and "
                 "polyhedra histories, composed transactions on the real CMap3 vs the model; WF and Mirror evaluated on the real map. Props/C02b.lean: the two extra shape predicates used by the 3-D face clauses of C03/C20 — Sided (a face is 3-linked as a whole) and NoSelfGlue — are NOT invariants under C02's guards alone (decide-checked counterexample histories) and ARE preserved under the additional guard 'a 1-link joins two darts that are both 3-linked or both 3-free' (C02b_history_preserves_all).",
-        "note": "CMap3::one_link / one_unlink of dim3/links/one.rs are likewise re-translated (Gen/Links3.lean) and proved equal to oneLink3 / oneUnlink3 (Props/C02Gen.lean). The six *_core functions of components/betas.rs are RE-TRANSLATED from the source on every run (Gen/LinkCores.lean) and proved equal as programs to the link cores of the model (Props/C01Gen.lean); the rest of the model is hand-written. Trusted: Lean kernel + 3 standard axioms; hand-written model (Model/Ops3.lean). Defect D1/D1b (three_link accepted "
+        "note": "CMap3::three_link / three_unlink of dim3/links/three.rs -- the lock-step walks with BOTH while loops, the mutable pair (lside, rside), every AsymmetricalFaces guard and the assert_eq! -- are re-translated on every run (Gen/Links3Loops.lean, 30 instructions) and proved equal as programs to threeLink3 / threeUnlink3 (Props/C02Gen3.lean: a generic while combinator run with the fuel of the model, whileL_linkBody / whileL_unlinkBody by induction). CMap3::one_link / one_unlink of dim3/links/one.rs are likewise re-translated (Gen/Links3.lean) and proved equal to oneLink3 / oneUnlink3 (Props/C02Gen.lean). The six *_core functions of components/betas.rs are RE-TRANSLATED from the source on every run (Gen/LinkCores.lean) and proved equal as programs to the link cores of the model (Props/C01Gen.lean); the rest of the model is hand-written. Trusted: Lean kernel + 3 standard axioms; hand-written model (Model/Ops3.lean). Defect D1/D1b (three_link accepted "
                 "non-mirrorable faces) found and repaired (243b216).",
         "design_ref": "DESIGN.md §7 C02, §13",
     },
@@ -73,7 +73,7 @@ CLAIMED = {
                 "Tie: polyhedral complexes (hexahedra, tetrahedra, prisms, pyramids; rings of tets/cubes closing around an edge), glued "
                 "faces families, histories and tx blocks with free-term attribute values on the real CMap3 vs the model; Python oracle "
                 "recomputes cells independently and checks placement, round trips and 'unsew succeeds on embedded meshes'.",
-        "note": "AttrSparseVec::merge / split of attributes/collections.rs (guard, reads, law dispatch table, writes in order) are RE-TRANSLATED from the source on every run (Gen/AttrMoves.lean) and proved equal as programs to mergeS / splitS of the model (Props/C04Gen.lean). Trusted: Lean kernel + 3 standard axioms; hand-written model. Cell level (C05Cells, C05Cells2): 1-sew/1-unsew on every WF 4 "
+        "note": "CMap3::one_sew / one_unsew / two_sew / two_unsew (dim3/sews/one.rs, two.rs; 107 instructions, orientation test and early return included) are RE-TRANSLATED from the source on every run (Gen/Sews3.lean) and proved equal as programs to oneSew3 / oneUnsew3 / twoSew3 / twoUnsew3 (Props/C05Gen.lean; C05_gen_sews_topology / C05_gen_unsews_topology state C05 (a) on the translated code); CMap3::three_sew / three_unsew (dim3/sews/three.rs: the two collected face walks, the zip loops with their bodies, the orientation test, the merge / split calls with their argument order, the filter closures; 79 instructions) likewise (Gen/Sews3Loops.lean, Props/C05Gen3.lean: C05_gen_threeSew3, C05_gen_threeUnsew3, loops by induction over the zipped walk). AttrSparseVec::merge / split of attributes/collections.rs (guard, reads, law dispatch table, writes in order) are RE-TRANSLATED from the source on every run (Gen/AttrMoves.lean) and proved equal as programs to mergeS / splitS of the model (Props/C04Gen.lean). Trusted: Lean kernel + 3 standard axioms; hand-written model. Cell level (C05Cells, C05Cells2): 1-sew/1-unsew on every WF 4 "
                 "map; 2- and 3-sew/unsew on closed faces; C05Succ: 1-/2-/3-unsew SUCCEED on an embedded mesh (built-in vertices; the result "
                 "is embedded again), open-face arms of 2-(un)sew, cell-level proviso => id-level proviso for 3-sew. C05Cells3(+Data): 3-sew / 3-unsew at cell level on OPEN faces; "
                 "C05SuccLaw: the unsews succeed for ANY attribute law that splits the values held at the splitting cells' identifiers "
